@@ -78,13 +78,25 @@ def run(tier, seed):
         for k in range(6 if tier == "quick" else 60):
             jobs.append((spec, seed + 9000 + k, None, {"desired": 12, "generations": 10, "population": rnd.choice([6, 12])}))
             plan.append(("constraints", 0, [(p_, "(bound-vs-free constraint %d)" % i) for i, p_ in enumerate(phis)], spec))
-    ncomp = 20 if tier == "quick" else 300
+    ncomp = 30 if tier == "quick" else 400
     for k in range(ncomp):
-        g = gen.rand_grammar(rnd, flavour="text", computed=rnd.choice([1, 2, 3]), classes=gen.SMALL_CLASSES)
+        g = gen.rand_grammar(rnd, flavour="text", computed=rnd.choice([1, 2, 3, 4, 4, 4]), classes=gen.SMALL_CLASSES)
         cons = gen.rand_constraints(rnd, g)
         spec = gen.render(g, cons)
-        jobs.append((spec, seed + 5000 + k, None, {"desired": 6, "generations": 8, "population": 10}))
+        jobs.append((spec, seed + 5000 + k, None, {"desired": 8, "generations": 10, "population": 10}))
         plan.append(("computed", g, cons, spec))
+    # a count field that may be 0 (the repetition is then absent) and must equal a second field: the repairs of the two
+    # constraints (repetition bound, equality) work on the same node
+    L = gen.lit_text
+    zero = {"start": "<start>", "flavour": "text", "computed": 4, "rules": {
+        "<start>": gen.nt("<rec>"), "<len>": gen.alt(L("0"), L("1"), L("2"), L("3")), "<trail>": gen.alt(L("0"), L("1"), L("2"), L("3")),
+        "<item>": gen.alt(L("p"), L("q")),
+        "<rec>": gen.cat(gen.nt("<len>"), L(":"), gen.rep(gen.nt("<item>"), 0, gen.INF, ref="<len>"), L(";"), gen.nt("<trail>"))}}
+    for k in range(10 if tier == "quick" else 120):
+        cons = [['where str(<len>) == str(<trail>)'], ['where str(<len>) == str(<trail>)', 'where int(<trail>) >= 1']][k % 2]
+        spec = gen.render(zero, cons)
+        jobs.append((spec, seed + 7000 + k, None, {"desired": 10, "generations": 10, "population": 10}))
+        plan.append(("computed", zero, cons, spec))
     results = pmap(_search, jobs)
     path = os.path.join(subdir("c02"), "emitted.ndjson")
     tt = TreeTrace("c02")
